@@ -212,3 +212,70 @@ func VF_C03_range_search_matches_storage() {
 		}
 	}
 }
+
+//vf:tier quick
+//vf:unwind 64
+//vf:hash uf+injective
+//vf:bound historic reads over a root (TrieStore as used by historic contract execution): trie of 2 (quick) / 3 (thorough) items flushed to the store; Get of a symbolic key and Seek with a prefix of 0..1 key bytes in both directions without a start point (the ranges System.Storage.Find can issue), with early stop after 1..3 results, equal the sorted storage content
+func VF_C03_historic_store_reads_match_storage() {
+	st := storage.NewMemCachedStore(storage.NewMemoryStore())
+	t := NewTrie(nil, ModeAll, st)
+	stor := &vhStor{}
+	for i, n := 0, 2+vfTier(); i < n; i++ {
+		k, v := vhSKey("key"), []byte{byte(i + 1)}
+		vfAssert(t.Put(k, v) == nil, "put-ok")
+		stor.set(k, v)
+	}
+	t.Flush(0)
+	ts := NewTrieStore(t.StateRoot(), ModeAll, st)
+	// point reads
+	q := vhSKey("query")
+	gv, gerr := ts.Get(append([]byte{byte(storage.STStorage)}, q...))
+	found := false
+	for i, k := range stor.keys {
+		if bytes.Equal(k, q) {
+			found = true
+			vfAssert(gerr == nil && bytes.Equal(gv, stor.vals[i]), "historic-Get==storage")
+		}
+	}
+	if !found {
+		vfAssert(gerr != nil, "historic-Get-absent")
+	}
+	// range reads
+	prefix := vfBytes("prefix", vfChoose("prefix.len", 0, 1))
+	backwards := vfBool("backwards")
+	max := vfChoose("max", 1, 3)
+	var got [][]byte
+	ts.Seek(storage.SeekRange{Prefix: append([]byte{byte(storage.STStorage)}, prefix...), Backwards: backwards}, func(k, v []byte) bool {
+		got = append(got, bytes.Clone(k[1:]))
+		return len(got) < max
+	})
+	var want [][]byte
+	for range stor.keys {
+		var best []byte
+		for _, k := range stor.keys {
+			if !bytes.HasPrefix(k, prefix) {
+				continue
+			}
+			if len(want) > 0 && ((!backwards && bytes.Compare(k, want[len(want)-1]) <= 0) || (backwards && bytes.Compare(k, want[len(want)-1]) >= 0)) {
+				continue
+			}
+			if best == nil || (!backwards && bytes.Compare(k, best) < 0) || (backwards && bytes.Compare(k, best) > 0) {
+				best = k
+			}
+		}
+		if best == nil {
+			break
+		}
+		want = append(want, best)
+	}
+	if len(want) > max {
+		want = want[:max]
+	}
+	vfAssert(len(got) == len(want), "historic-Seek-count")
+	for i := range got {
+		if i < len(want) {
+			vfAssert(bytes.Equal(got[i], want[i]), "historic-Seek-keys-in-order")
+		}
+	}
+}
